@@ -66,7 +66,7 @@ BIND = [
 def bind(prog, run):
     for cq, mname, callee, want in BIND:
         ci = prog.cls(cq)
-        m = ci.methods.get(mname)
+        m = prog.exact_method(ci, mname) if mname in ci.methods else None
         if m is None:
             raise AnalysisError(f"anchor lost: {cq}.{mname}")
         f = rel(prog.mods[m.mod].path)
